@@ -884,8 +884,43 @@ def fs_monitor(w):
         w.sched.user['fs_monitor_points'] = w.sched.user.get('fs_monitor_points', 0) + 1
 
 
+def o_bandwidth(w, tr):
+    """C13 wiring: every data path of a manager with max_bandwidth is throttled by one bucket."""
+    out = []
+    cfg = w.manager.config if w.manager else None
+    if cfg is None or cfg.max_bandwidth is None or w.sched.outcome != 'ok':
+        return out
+    m = float(cfg.max_bandwidth)
+    thr = w.scn.get('bw_threshold') or 256 * 1024
+    moves = []
+    for kind in ('body.read', 'stream.read'):
+        for e in tr.ev(kind):
+            if e[3].get('n'):
+                moves.append((e[4], e[3]['n'], e[3].get('call')))
+    if not moves:
+        return out
+    callmap = {c['id']: c for c in tr.calls}
+    # bytes read while progress/limiting is suppressed (signing) are not transferred: only 's' phase reads are logged
+    nreq = len({c for _, _, c in moves})
+    maxread = max(n for _, n, _ in moves)
+    B = nreq * (2 * thr + maxread)
+    times = sorted({t for t, _, _ in moves})
+    w.sched.user['max_bw_span'] = times[-1] - times[0]
+    for a in range(len(times)):
+        for b in range(a, len(times)):
+            t1, t2 = times[a], times[b]
+            tot = sum(n for t, n, _ in moves if (t1 < t <= t2) or (a == b and t == t1))
+            lim = 1.25 * m * (t2 - t1) + B
+            if tot > lim + 1e-9:
+                ops = sorted({callmap[c]['op'] for t, n, c in moves if t1 <= t <= t2 and c in callmap})
+                out.append(('C13:wiring:rate-exceeded',
+                            f'{tot} bytes moved in [{t1:.3f},{t2:.3f}] > 1.25*{m}*T + {B} = {lim:.2f} ({ops})'))
+                return out
+    return out
+
+
 ALL_ORACLES = [o_termination, o_exact, o_streaming_order, o_failure_truth, o_mpu,
-               o_callbacks, o_progress, o_limits, o_memory, o_semaphores, o_barrier, o_isolation,
+               o_callbacks, o_progress, o_limits, o_memory, o_semaphores, o_barrier, o_isolation, o_bandwidth,
                o_cancel, o_fs]
 
 
